@@ -90,9 +90,10 @@ class LInstance(LObj):
 
 
 class LClosure(LObj):
-    __slots__ = ("name", "params", "body", "env", "kind", "owner", "module", "home")
+    __slots__ = ("name", "params", "body", "env", "kind", "owner", "module", "home", "def_line")
 
     def __init__(self, name, params, body, env, kind="fn", owner=None, module=None, home=0):
+        self.def_line = 0  # source line of a lambda expression (its body, when the body is an expression)
         self.home = home  # activation that created the closure
         self.name = name
         self.params = params
@@ -113,9 +114,10 @@ class LBound(LObj):
 
 class LNative(LObj):
     """A builtin function or method. `fn(interp, recv, args)`; arity = (min, max|None)."""
-    __slots__ = ("name", "fn", "arity", "kinds", "is_method")
+    __slots__ = ("name", "fn", "arity", "kinds", "is_method", "stack")
 
     def __init__(self, name, fn, arity, kinds=(), is_method=True):
+        self.stack = False  # runs with a stub frame of its own ('native:0 in <name>()' in tracebacks)
         self.name = name
         self.fn = fn
         self.arity = arity
